@@ -166,43 +166,8 @@ def run(an: Analysis, rep):
             rep.add("R02.2", f"{f.qual}::hand-written opcode table", False, loc(f.module, f.node),
                     pr + ": operands of the missing opcodes are shown as raw integers and the targets of missing jump opcodes start no block", config=cfg)
         rep.run(r022_noarg, an, rep, V, f)
-        seen_cats = set()
-        for cat, ifn in arms:
-            seen_cats.add(cat)
-            if cat not in CATEGORY_TABLE:
-                continue
-            rets = [r for r in returns_of(ifn.body) if r.value is not None]
-            if not rets:
-                raise AnalysisError(f"{f.qual}: arm {cat} has no return")
-            tables: Set[str] = set()
-            classes: Set[str] = set()
-            rel_vals = set()
-            for r in rets:
-                for a in it.value_at(r.value):
-                    if a[0] == "obj" and it.obj_class(a):
-                        ci = an.prog.cls(it.obj_class(a))
-                        classes.add(ci.name)
-                        payload = ci.fields[0].name
-                        pv = it.hget(a, ("a", payload))
-                        for o in it.origins(pv):
-                            if o[0] == "src" and o[1] == "code" and o[2] and o[2][0][0] == "a" and o[2][0][1] != "co_code":
-                                tables.add(o[2][0][1])
-                        if ci.field("relative"):
-                            rel_vals |= {x[1] for x in it.hget(a, ("a", "relative")) if x[0] == "const"}
-                    elif a[0] != "obj":
-                        classes.add("<raw>")
-            want = CATEGORY_TABLE[cat]
-            w = loc(f.module, ifn)
-            if cat in ("hasjabs", "hasjrel"):
-                ok = classes == {"Jump"} and rel_vals == {cat == "hasjrel"}
-                rep.add("R02.1", f"{f.qual}::{cat}", ok, w,
-                        f"{cat} -> Jump(relative={cat == 'hasjrel'})" if ok else f"{cat} arm builds {sorted(classes)} with relative in {sorted(rel_vals)}; CPython treats it as {'relative' if cat == 'hasjrel' else 'absolute'}", config=cfg)
-            else:
-                ok = tables == want and "<raw>" not in classes
-                rep.add("R02.1", f"{f.qual}::{cat}", ok, w,
-                        f"{cat} -> {sorted(classes)} with payload from {sorted(tables)}" if ok else
-                        f"{cat} arm builds {sorted(classes)} whose payload originates in {sorted(tables)}; CPython indexes {sorted(want)} for this category: "
-                        f"the user is shown names/values from the wrong table (the mirrored encoder keeps the round trip green)", config=cfg)
+        seen_cats = {cat for cat, _ in arms}
+        rep.run(r021, an, rep, V, f, arms)
         for cat in CATEGORY_TABLE:
             rep.add("R02.2", f"{f.qual}::arm for {cat}", cat in seen_cats, loc(f.module, f.node),
                     "present" if cat in seen_cats else f"operand category {cat} has no arm: its operands are shown as raw integers", nontrivial=False, config=cfg)
@@ -236,6 +201,47 @@ def run(an: Analysis, rep):
     rep.assumptions += ["compiler output never jumps into the middle of an EXTENDED_ARG sequence (CPython's assembler targets the first unit)"]
 
 
+def r021(an, rep, V, f, arms):
+    """Operand category -> payload: each `opcode in dis.hasX` arm builds the class of that category from the table CPython indexes."""
+    cfg = vname(V)
+    it, ret = an.interp("from_code", V)
+    for cat, ifn in arms:
+        if cat not in CATEGORY_TABLE:
+            continue
+        rets = [r for r in returns_of(ifn.body) if r.value is not None]
+        if not rets:
+            raise AnalysisError(f"{f.qual}: arm {cat} has no return")
+        tables: Set[str] = set()
+        classes: Set[str] = set()
+        rel_vals = set()
+        for r in rets:
+            for a in it.value_at(r.value):
+                if a[0] == "obj" and it.obj_class(a):
+                    ci = an.prog.cls(it.obj_class(a))
+                    classes.add(ci.name)
+                    payload = ci.fields[0].name
+                    pv = it.hget(a, ("a", payload))
+                    for o in it.origins(pv):
+                        if o[0] == "src" and o[1] == "code" and o[2] and o[2][0][0] == "a" and o[2][0][1] != "co_code":
+                            tables.add(o[2][0][1])
+                    if ci.field("relative"):
+                        rel_vals |= {x[1] for x in it.hget(a, ("a", "relative")) if x[0] == "const"}
+                elif a[0] != "obj":
+                    classes.add("<raw>")
+        want = CATEGORY_TABLE[cat]
+        w = loc(f.module, ifn)
+        if cat in ("hasjabs", "hasjrel"):
+            ok = classes == {"Jump"} and rel_vals == {cat == "hasjrel"}
+            rep.add("R02.1", f"{f.qual}::{cat}", ok, w,
+                    f"{cat} -> Jump(relative={cat == 'hasjrel'})" if ok else f"{cat} arm builds {sorted(classes)} with relative in {sorted(rel_vals)}; CPython treats it as {'relative' if cat == 'hasjrel' else 'absolute'}", config=cfg)
+        else:
+            ok = tables == want and "<raw>" not in classes
+            rep.add("R02.1", f"{f.qual}::{cat}", ok, w,
+                    f"{cat} -> {sorted(classes)} with payload from {sorted(tables)}" if ok else
+                    f"{cat} arm builds {sorted(classes)} whose payload originates in {sorted(tables)}; CPython indexes {sorted(want)} for this category: "
+                    f"the user is shown names/values from the wrong table (the mirrored encoder keeps the round trip green)", config=cfg)
+
+
 def jump_rules(an: Analysis, rep, with_cellfree=True):
     """R02.3 (+R02.4) for every interpreter version, and the parser offsets (R02.3/R02.5)."""
     for V in VERSIONS:
@@ -249,6 +255,7 @@ def jump_rules(an: Analysis, rep, with_cellfree=True):
         if with_cellfree:
             rep.run(r024, an, rep, V, f, arms, env)
         rep.run(r022_noarg, an, rep, V, f)
+        rep.run(r021, an, rep, V, f, arms)
     rep.run(r025, an, rep)
 
 
